@@ -33,7 +33,7 @@ type mrSink struct {
 
 type mrLoop struct {
 	pkg     *packages.Package
-	fn      *ast.FuncDecl // enclosing declaration, nil for a literal in a package-level initialiser
+	fn      *ast.FuncDecl  // enclosing declaration, nil for a literal in a package-level initialiser
 	body    *ast.BlockStmt // innermost enclosing function body
 	ftype   *ast.FuncType
 	name    string
